@@ -148,8 +148,10 @@ fcache_get_mmap(struct fcache *fc, struct fcache_entry *fce,
 		cache_insert(fc->cache, ce);
 	}
 
-	if (ce->data == MAP_FAILED)
+	if (ce->data == MAP_FAILED) {
+		cache_put_entry(fc->cache, ce);
 		return KDUMP_ERR_SYSTEM;
+	}
 
 	fce->ce = ce;
 	off = pos & (fc->mmapsz - 1);
